@@ -112,8 +112,44 @@ class C03(RunProp):
     )
     budgets = {"quick": 300, "thorough": 6000}
 
+    @staticmethod
+    def _explicit_edges(rng: random.Random, c: dict) -> dict | None:
+        """The same gated graph with its edges DECLARED (`Graph(nodes, edges=[...])`): every producer -> consumer pair the names imply, plus the
+        gate -> target pairs (all of them, or some), in any order — as the documentation's own example lists them. Routing must not change."""
+        c = copy.deepcopy(c)
+        g = c["program"][-1]
+        if len(c["program"]) != 1 or any(n.get("emits") or n.get("waitFor") for n in g["nodes"]):
+            return None
+        pairs: list[list[str]] = []
+        for p_ in g["nodes"]:
+            for q in g["nodes"]:
+                ren = dict(q.get("inRen", []))
+                ins = {ren.get(x[0], x[0]) for x in q.get("params", [])}
+                if p_ is not q and set(p_.get("dataOuts", [])) & ins:
+                    pairs.append([p_["name"], q["name"]])
+        routing = [[n["name"], t] for n in g["nodes"] if n["kind"] in ("route", "ifelse") for t in dict.fromkeys(n["targets"]) if t != "__END__"]
+        if not routing:
+            return None
+        keep = routing if rng.random() < 0.6 else rng.sample(routing, rng.randint(1, len(routing)))
+        edges = pairs + keep
+        rng.shuffle(edges)
+        if rng.random() < 0.4:
+            edges = keep + pairs
+        g["edges"] = edges
+        return c
+
     def cases(self, rng: random.Random, tier: str) -> Iterable[dict]:
+        forced_explicit = 6
         while True:
+            if forced_explicit or rng.random() < 0.08:
+                base = gen.gen_gated_dag(rng, max_nodes=8, p_closed=rng.choice([0.0, 0.2, 0.6]))
+                c = self._explicit_edges(rng, base)
+                if c is None:
+                    continue
+                forced_explicit = max(0, forced_explicit - 1)
+                for runner in ("sync", "async"):
+                    yield {"program": c["program"], "values": c["values"], "cfg": {}, "runner": runner, "kind": "dag"}
+                continue
             r = rng.random()
             if r < 0.1:
                 c = gen_shared_target(rng)
